@@ -96,9 +96,9 @@ class FuncInfo:
 
 
 class Module:
-    def __init__(self, name, path):
+    def __init__(self, name, path, src=None):
         self.name, self.path = name, path
-        self.src = open(path).read()
+        self.src = open(path).read() if src is None else src
         self.tree = ast.parse(self.src)
         self.funcs = {}       # key -> FuncInfo
         self.classes = {}     # class name -> {"fields": [..], "methods": {...}}
@@ -500,7 +500,9 @@ class FT:
         f = n.func
         if isinstance(f, ast.Name): return self.call_name(n, f.id)
         if isinstance(f, ast.Attribute): return self.call_attr(n, f)
-        fail(n, "call of computed function")
+        args = self.plain_args(n, 0, 9)
+        return "(bind %s (fun f_ => guard [%s] (fun _ => %s f_ [%s])))" % (
+            self.expr(f), "; ".join(args), self.op("call"), "; ".join(args))
 
     def plain_args(self, n, lo, hi=None):
         if n.keywords or any(isinstance(a, ast.Starred) for a in n.args):
@@ -513,7 +515,7 @@ class FT:
         if name in self.locals:
             # calling a local value: function parameters (basis functions)
             args = self.plain_args(n, 0, 9)
-            return "(py_apply %s [%s])" % (self.v(name), "; ".join(args))
+            return "(%s %s [%s])" % (self.op("call"), self.v(name), "; ".join(args))
         imp = self.mod.imports.get(name)
         if imp and imp[0] == "math":
             return self.math_call(n, imp[1])
@@ -591,6 +593,10 @@ class FT:
                 if imp[0] == "datetime" and m == "date":
                     a = self.plain_args(n, 3)
                     return "(date_new %s %s %s)" % tuple(a)
+                if imp[0] == "datetime" and m == "datetime":
+                    a = self.plain_args(n, 3, 7)
+                    a = a + ["(VInt 0)"] * (7 - len(a))
+                    return "(datetime_new [%s])" % "; ".join(a)
                 fail(n, "call %s.%s" % (rv.id, m))
             if self.tr.resolve_class(self.mod, rv.id):
                 fi = self.tr.find_method(rv.id, m)
@@ -902,11 +908,13 @@ OVERRIDES = {"Epoch.utc2local": "(VErr Unsupported)"}
 SKIP = {"main", "__str__", "__repr__", "__hash__"}
 
 class Translator:
-    def __init__(self, repo, module_names):
+    def __init__(self, repo, module_names, extra=()):
         self.repo = repo
         self.modules = []
         for name in module_names:
             self.modules.append(Module(name, os.path.join(repo, "pymeeus", name + ".py")))
+        for name, src in extra:
+            self.modules.append(Module(name, "<%s>" % name, src))
         self.mod_index = {m.name: i for i, m in enumerate(self.modules)}
         self.state = {}       # item -> 'busy' | 'done' | 'failed'
         self.out = {m.name: [] for m in self.modules}     # emitted text chunks per module
@@ -1121,9 +1129,9 @@ class Translator:
         if g is None:
             self.commit_wrappers(mname, ft)
             if sig is None:
-                self.out[mname].append("Definition %s : val :=\n  %s.\n" % (name, body))
+                self.out[mname].append("Definition %s : val :=\n  let _ := fo in %s.\n" % (name, body))
             else:
-                self.out[mname].append("Definition %s %s : val :=\n  %s.\n" % (name, sig, body))
+                self.out[mname].append("Definition %s %s : val :=\n  let _ := fo in %s.\n" % (name, sig, body))
             self.finish(item, name)
             return True
         g["texts"][item] = (name, sig, body, ft)
@@ -1137,7 +1145,7 @@ class Translator:
             nm, sg, bd, ft2 = g["texts"][it]
             self.commit_wrappers(mname, ft2)
             parts.append("%s_rec (rfuel : nat) %s {struct rfuel} : val :=\n  match rfuel with 0%%nat => VErr OutOfFuel "
-                         "| S rfuel' => %s end" % (nm, sg, bd))
+                         "| S rfuel' => let _ := fo in %s end" % (nm, sg, bd))
         self.out[mname].append("Fixpoint " + "\nwith ".join(parts) + ".\n")
         for it in g["members"]:
             nm = g["texts"][it][0]
@@ -1232,6 +1240,22 @@ class Translator:
                     % (chain(impls, "a", lambda fi: "%s a" % fi.coq, "VErr TypeError"), base))
             ft.needed.append((keyt, name, "Definition %s (a : val) : val :=\n  %s.\n" % (name, body)))
             return name
+        if kind == "call":
+            impls = self.dunder_impls(ft, "__call__")
+            keyt = (mname, kind, tag(impls))
+            hit = self.wlookup(ft, keyt)
+            if hit: return hit
+            self.wcount += 1
+            name = "py_call_%d" % self.wcount
+            def mk(fi):
+                n = len(fi.user_params())
+                vs = ["x%d" % i for i in range(n)]
+                return "match args with [%s] => %s end" % (
+                    "; ".join(vs), " ".join([fi.coq, "a"] + vs) + " | _ => VErr TypeError")
+            body = ("match a with VErr e => VErr e | VObj c_ _ => %s | _ => py_apply a args end"
+                    % chain(impls, "a", mk, "VErr TypeError"))
+            ft.needed.append((keyt, name, "Definition %s (a : val) (args : list val) : val :=\n  %s.\n" % (name, body)))
+            return name
         if kind == "round":
             impls = self.dunder_impls(ft, "__round__")
             keyt = (mname, kind, tag(impls))
@@ -1263,10 +1287,13 @@ class Translator:
                     except Deferred:
                         pass
 
-    def write(self, outdir):
+    def write(self, outdir, only=None):
         os.makedirs(outdir, exist_ok=True)
         prev = []
         for m in self.modules:
+            if only is not None and m.name not in only:
+                prev.append(m.name)
+                continue
             lines = ["(* generated by py2coq from pymeeus/%s.py — do not edit *)" % m.name,
                      "From Coq Require Import ZArith List String PrimFloat.",
                      "From PyLib Require Import PyVal PyBuiltins."]
@@ -1285,8 +1312,9 @@ class Translator:
             with open(os.path.join(outdir, "M_%s.v" % m.name), "w") as f:
                 f.write("\n".join(lines))
             prev.append(m.name)
-        with open(os.path.join(outdir, "REPORT.json"), "w") as f:
-            json.dump(self.report, f, indent=1, sort_keys=True)
+        if only is None:
+            with open(os.path.join(outdir, "REPORT.json"), "w") as f:
+                json.dump(self.report, f, indent=1, sort_keys=True)
 
 
 def main():
